@@ -2,6 +2,7 @@
 // (compiled per label kind). C08 enumeration, C09 conversions / constructors /
 // copies, C10 induced subgraphs.
 #include "shape.hpp"
+#include <cmath>
 #include "snapshot.hpp"
 
 #include "BaseGraph/algorithms/topology.hpp"
@@ -22,6 +23,8 @@ namespace {
 using L = BaseGraph::NoLabel;
 #elif VK_LABEL == 1
 using L = int;
+#elif VK_LABEL == 3
+using L = double; // only run for C10, where a third of the labels are NaN (a label that does not equal itself)
 #elif VK_LABEL == 5
 using L = std::string;
 #else
@@ -32,10 +35,23 @@ namespace alg = BaseGraph::algorithms;
 using DG = LabeledDirectedGraph<L>;
 using UG = LabeledUndirectedGraph<L>;
 
-L lab(uint64_t stamp) { return LT<L>::make(stamp); }
+const uint64_t NAN_STAMP = 999983;
+L lab(uint64_t stamp) {
+#if VK_LABEL == 3
+    if (stamp == NAN_STAMP) return std::nan("");
+#endif
+    return LT<L>::make(stamp);
+}
+// equality of labels as values: a NaN label is the same label as itself although == says otherwise
+bool sameLabel(const L &a, const L &b) {
+#if VK_LABEL == 3
+    if (std::isnan(a) && std::isnan(b)) return true;
+#endif
+    return a == b;
+}
 
 struct Counters {
-    uint64_t assignments = 0, rejectedInPast = 0, dupSources = 0, detours = 0, subOfSub = 0, rejectedInBetween = 0, remutated = 0, graphs = 0, iterSteps = 0, conversions = 0, ctorChecks = 0, copies = 0, subsets = 0, remapChecks = 0, labelReads = 0, filesWritten = 0, emptyGraphs = 0,
+    uint64_t nanLabels = 0, assignments = 0, rejectedInPast = 0, dupSources = 0, detours = 0, subOfSub = 0, rejectedInBetween = 0, remutated = 0, graphs = 0, iterSteps = 0, conversions = 0, ctorChecks = 0, copies = 0, subsets = 0, remapChecks = 0, labelReads = 0, filesWritten = 0, emptyGraphs = 0,
              zeroVertex = 0;
     ObsCounters oc;
 } C;
@@ -48,7 +64,7 @@ template <class G> struct Built {
     Built() : g(0) {}
 };
 
-template <class G> Built<G> build(const GraphSpec &s, unsigned variant, Rng &r, uint64_t salt) {
+template <class G> Built<G> build(const GraphSpec &s, unsigned variant, Rng &r, uint64_t salt, bool someNaN = false) {
     Built<G> b;
     b.g.resize(s.n);
     b.x.directed = s.directed;
@@ -57,6 +73,10 @@ template <class G> Built<G> build(const GraphSpec &s, unsigned variant, Rng &r, 
     for (auto &e : b.order) {
         Edge k = canon(s.directed, e.first, e.second);
         uint64_t st = stampOf(k, salt);
+        if (someNaN && VK_LABEL == 3 && st % 3 == 0) {
+            st = NAN_STAMP;
+            ++C.nanLabels;
+        }
         b.stamp[k] = st;
         b.x.e[k] = Expect::Cell();
         b.g.addEdge(e.first, e.second, lab(st));
@@ -113,11 +133,11 @@ template <class G> std::string labelsMatch(const G &g, const std::map<Edge, uint
             if (it == want.end()) continue;
             ++C.labelReads;
             L got = g.getEdgeLabel(i, j, false);
-            if (!(got == lab(it->second))) {
+            if (!sameLabel(got, lab(it->second))) {
                 o << what << ": label of (" << i << "," << j << ") is " << LT<L>::str(got) << ", expected " << LT<L>::str(lab(it->second));
                 return o.str();
             }
-            if (!g.hasEdge(i, j, lab(it->second))) {
+            if (it->second != NAN_STAMP && !g.hasEdge(i, j, lab(it->second))) {
                 o << what << ": hasEdge(" << i << "," << j << ",label) false";
                 return o.str();
             }
@@ -465,14 +485,21 @@ template <class G> void c09(Reporter &R, const std::string &cls, const GraphSpec
 template <class G> void c10(Reporter &R, const std::string &cls, const GraphSpec &s, unsigned variant, uint64_t idx) {
     Rng r = caseRng(R.args.seed, hashStr(cls + "c10"), idx);
     bool dupSource = variant == 5;
-    auto b = build<G>(s, dupSource ? 2 : variant, r, 37);
+    auto b = build<G>(s, dupSource ? 2 : variant, r, 37, true);
     if (dupSource) {
         // a graph that carries forced duplicates is a graph too (C16): the induced subgraph connects exactly the pairs of S that
         // the source connects. How many copies the subgraph keeps is not stated, so only the set of pairs and the labels are held
         ++C.dupSources;
-        for (auto &e : b.order)
+        // half of the time the copies follow their original at once (they then sit in the middle of the neighbour lists, before
+        // edges added later), otherwise they are appended when all edges are in
+        bool atOnce = r.chance(1, 2);
+        if (atOnce) b.g = G(s.n);
+        for (auto &e : b.order) {
+            L l = lab(b.stamp[canon(s.directed, e.first, e.second)]);
+            if (atOnce) b.g.addEdge(e.first, e.second, l);
             if (r.chance(1, 2))
-                for (unsigned c = 0, k = 1 + r.u(2); c < k; ++c) b.g.addEdge(e.first, e.second, lab(b.stamp[canon(s.directed, e.first, e.second)]), true);
+                for (unsigned c = 0, k = 1 + r.u(2); c < k; ++c) b.g.addEdge(e.first, e.second, l, true);
+        }
     }
     auto sameSet = [&](const G &got, const Expect &want) -> std::string {
         std::ostringstream o;
@@ -603,6 +630,7 @@ void flush(Reporter &R) {
     R.count("assignments_over_a_non_empty_graph_and_from_temporaries", C.assignments);
     R.count("source_graphs_carrying_forced_duplicates", C.dupSources);
     R.count("subgraph_of_subgraph_checks", C.subOfSub);
+    R.count("edges_labelled_NaN", C.nanLabels);
     R.count("edge_iteration_steps", C.iterSteps);
     R.count("conversions_checked", C.conversions);
     R.count("constructor_checks", C.ctorChecks);
@@ -623,6 +651,7 @@ template <class G> void reg(const char *base, bool directed, bool flusher) {
                                      if (flusher) flush(R);
                                      return;
                                  }
+                                 if (VK_LABEL == 3 && prop != "C10") return; // the double kind exists for C10's NaN labels only
                                  if (prop == "C08") c08<G>(R, cls, s, variant, idx);
                                  else if (prop == "C09") c09<G>(R, cls, s, variant, idx);
                                  else if (prop == "C10") c10<G>(R, cls, s, variant, idx);
